@@ -259,3 +259,60 @@ def f_copy(it, x):
     if isinstance(x, (SInt, SBool, SStr, SBytes, SNoneT, SEnum, SFloat, SConst, STuple, SSeq)):
         return x
     raise Unsupported(f"copy.copy of {x!r}")
+
+
+# ---------------------------------------------------------------------------------------------------------------------
+# re.compile on concrete arguments: the real compiled pattern (an opaque constant whose methods are modelled above);
+# an invalid expression raises re.error as in CPython.
+
+
+@function(re.compile)
+def f_re_compile(it, pattern, flags=None):
+    try:
+        p = _lib.to_native(it.resolve(pattern))
+        fl = 0 if flags is None else _lib.to_native(it.resolve(flags))
+    except ValueError:
+        raise Unsupported("re.compile of a symbolic expression")
+    try:
+        return SConst(re.compile(p, fl))
+    except Exception as e:
+        raise I.PyExc(_lib.exc_obj_from(e))
+
+
+def caseless_literal(p: re.Pattern):
+    """the literal text of p if p is a plain sequence of literal characters none of which is a letter (so that IGNORECASE,
+    MULTILINE and DOTALL do not change what it matches), else None"""
+    try:
+        import re._parser as P
+        from re._constants import LITERAL
+
+        t = P.parse(p.pattern, p.flags)
+    except Exception:
+        return None
+    chars = []
+    for op, arg in t.data:
+        if op is not LITERAL:
+            return None
+        c = chr(arg)
+        if arg > 127 or c.isalpha():
+            return None
+        chars.append(c)
+    return "".join(chars) if chars else None
+
+
+_uninterpreted_search = PATTERN_METHODS["search"]
+
+
+def _search_with_literals(it, p, s, *a, **k):
+    """p.search(s) for a case-less literal pattern is exactly `literal in s`; other patterns stay uninterpreted"""
+    lit = caseless_literal(p)
+    s = it.resolve(s)
+    if lit is None or a or k or not isinstance(s, (SStr, SBytes)) or isinstance(s, SBytes) != isinstance(p.pattern, bytes):
+        return _uninterpreted_search(it, p, s, *a, **k)
+    it.ex.note("lib", f"re.search[{p.pattern!r}] (case-less literal: substring test, exact)")
+    if it.branch(SBool(z3.Contains(s.t, z3.StringVal(lit)))):
+        return SObj(re.Match, {"re": SConst(p), "string": s})
+    return NONE
+
+
+PATTERN_METHODS["search"] = _search_with_literals
